@@ -1,10 +1,10 @@
 package main
 
 import (
-	"sort"
 	"fmt"
 	"go/constant"
 	"go/token"
+	"sort"
 	"strings"
 
 	"golang.org/x/tools/go/ssa"
@@ -87,7 +87,10 @@ func propC05(c *Ctx, r *Report) {
 
 	// R1
 	r.rule("C05-R1/validated-origin", 3, "batches reaching the ledger come from the validating constructor")
-	for _, spec := range []struct{ fn, callee string; arg int }{
+	for _, spec := range []struct {
+		fn, callee string
+		arg        int
+	}{
 		{"node.Pegnetd.ApplyTransactionBlock", "node.Pegnetd.applyTransactionBatch", 2},
 		{"node.Pegnetd.ApplyTransactionBlock", "pegnet.Pegnet.InsertTransactionBatchHolding", 2},
 		{"node.Pegnetd.ApplyTransactionBlock", "pegnet.Pegnet.InsertTransactionHistoryTxBatch", 3},
